@@ -49,6 +49,7 @@ func (c *consumer) Close() (err error) {
 		for c.offset != 0 {
 			verifAt("consumer.close.wait", c, 0)
 			c.cond.Wait()
+			verifAt("consumer.after.woke1", nil, 0)
 		}
 	})
 
@@ -99,6 +100,7 @@ func (c *consumer) Get(ctx context.Context) (interface{}, error) {
 	// it was async
 	verifAt("consumer.get.recv", c, 0)
 	result := <-out
+	verifAt("consumer.after.passed1", nil, 0)
 	if result.Error != nil {
 		return nil, result.Error
 	}
